@@ -784,6 +784,7 @@ ENTRIES += [
     # ---------------------------------------------------------------- C14.11 foreign inputs are rejected, not raised on
     M("C14-try-cast-typeerror-only", "C14", "C14.11", ("lerax/space/utils.py", "    except (TypeError, ValueError, OverflowError):", "    except TypeError:")),
     V("C14-v-try-cast-catches-exception", "C14", ("lerax/space/utils.py", "    except (TypeError, ValueError, OverflowError):", "    except Exception:")),
+    M("R6-dict-contains-merged-guard-loses-type-test", "C14", "C14.3", ("lerax/space/dict.py", "        if not isinstance(x, OrderedDict) or self.spaces.keys() != x.keys():", "        if self.spaces.keys() != getattr(x, \"keys\", dict)():"), base="C14-ref14"),
     M("C14-try-cast-numbers-only", "C14", "C14.11", ("lerax/space/utils.py", "    try:\n        return jnp.asarray(x)\n", "    try:\n        x = jnp.asarray(x)\n        if not jnp.issubdtype(x.dtype, jnp.number):\n            return None\n        return x\n")),
     M("C14-discrete-contains-looks-before-cast", "C14", "C14.11", ("lerax/space/discrete.py", "        x = try_cast(x)\n        if x is None:\n            return jnp.array(False)\n\n        if x.ndim != 0:", "        if getattr(x, \"ndim\", 0) != 0:\n            return jnp.array(False)\n        x = try_cast(x)\n        if x is None:\n            return jnp.array(False)\n\n        if x.ndim != 0:")),
 ]
